@@ -14,12 +14,24 @@ namespace TB
     hash of the canonical encoding of the info value) -/
 theorem C10_iff (H : Bytes → Bytes) (inp : Bytes) (T : Torrent) :
     load H inp = .ok T ↔ ∃ v, canon v = true ∧ encode v = inp ∧ specLoad H v = some T := by
-  sorry
+  constructor
+  · intro h
+    obtain ⟨rks, rvs, s0, c0, iks, ivs, s, c, info, _, hcan, henc, hf, _, _, hsl, hs, rfl⟩ := load_ok_struct h
+    refine ⟨.dict (eraseDict rks rvs), hcan, henc, ?_⟩
+    simp only [specLoad, dictGet_eraseDict, hf, Option.map_some, erase, hs, hsl]
+  · rintro ⟨v, hc, rfl, hs⟩
+    exact load_of_spec hc hs
 
 /-- loading never yields anything but a record or an error for non-canonical input -/
 theorem C10_rejects_noncanonical (H : Bytes → Bytes) (inp : Bytes)
     (h : ¬ ∃ v, canon v = true ∧ encode v = inp) : load H inp = .err := by
-  sorry
+  have hno : ¬ ∃ t, decode inp = .ok t := fun ht => h ((C08_accepts_iff inp).1 ht)
+  unfold load
+  split
+  · rfl
+  · rename_i hp; exact absurd hp (C08_no_panic inp)
+  · rename_i hd; exact absurd ⟨_, hd⟩ hno
+  · rfl
 
 /-- lookups are by exact key: the value returned for `key` is the value of the first entry whose key equals
     `key` byte for byte; entries with other keys (prefixes, extensions, neighbours in sort order) are inert -/
@@ -27,12 +39,44 @@ theorem C10_exactkey (ks : List StrTok) (vs : List Tok) (key : Bytes) (v : Tok)
     (h : findValue ks vs key = some v) :
     ∃ i, ∃ (hk : i < ks.length) (hv : i < vs.length), ks[i].val = key ∧ vs[i] = v ∧
       ∀ j (hj : j < i), (ks[j]'(by omega)).val ≠ key := by
-  sorry
+  induction ks generalizing vs with
+  | nil => simp [findValue] at h
+  | cons k ks ih =>
+    cases vs with
+    | nil => simp [findValue] at h
+    | cons w ws =>
+      simp only [findValue] at h
+      split at h
+      · rename_i hk
+        cases h
+        exact ⟨0, by simp, by simp, hk, rfl, fun j hj => absurd hj (Nat.not_lt_zero j)⟩
+      · rename_i hk
+        obtain ⟨i, hi1, hi2, h1, h2, h3⟩ := ih ws h
+        refine ⟨i + 1, by simp only [List.length_cons]; omega, by simp only [List.length_cons]; omega, ?_, ?_, ?_⟩
+        · simpa using h1
+        · simpa using h2
+        · intro j hj
+          cases j with
+          | zero => simpa using hk
+          | succ j => simpa using h3 j (by omega)
 
 theorem C10_exactkey_none (ks : List StrTok) (vs : List Tok) (key : Bytes)
     (hlen : ks.length = vs.length) (h : findValue ks vs key = none) :
     ∀ k ∈ ks, k.val ≠ key := by
-  sorry
+  induction ks generalizing vs with
+  | nil => intro k hk; cases hk
+  | cons k0 ks ih =>
+    cases vs with
+    | nil => simp at hlen
+    | cons w ws =>
+      simp only [findValue] at h
+      split at h
+      · cases h
+      · rename_i hk0
+        intro k hk
+        rcases List.mem_cons.1 hk with rfl | hk
+        · exact hk0
+        · exact ih ws (by simpa using hlen) h k hk
 
 /-- what a loaded record always satisfies (used by C06/C12/C03): the relation between total length, piece
     length and number of hashes; non-empty file list; plain names -/
@@ -45,6 +89,7 @@ theorem C10_loaded_wf (H : Bytes → Bytes) (inp : Bytes) (T : Torrent) (h : loa
        ∨ (∃ fs, T.info.length = none ∧ T.info.files = some fs ∧ fs ≠ []
           ∧ (∀ f ∈ fs, f.length ≤ u64Max ∧ f.path ≠ [] ∧ ∀ c ∈ f.path, utf8Valid c = true ∧ plainComponent c = true)
           ∧ pieceCountOk ((fs.map (·.length)).sum) T.info.pieceLength T.info.pieces.length = true)) := by
-  sorry
+  obtain ⟨_, _, _, _, iks, ivs, _, _, info, _, _, _, _, _, _, _, hs, rfl⟩ := load_ok_struct h
+  exact specInfo_wf hs
 
 end TB
